@@ -62,7 +62,13 @@ def determinism(concepts, case):
     return []
 
 
+def defedit(concepts, case):
+    from . import defmodel
+    return defmodel.replay_edit(concepts, case)
+
+
 REPLAYERS = {
+    'defedit': defedit,
     'determinism': determinism,
     'ctor': ctor,
     'fromdict': fromdict,
@@ -79,6 +85,7 @@ REPLAYERS = {
     'table:C10': table_battery(B.b10),
     'table:C18': table_battery(B.b18),
     'table:C20': table_battery(B.b20),
+    'table:C14': table_battery(B.b14),
     'table:C16': table_battery(B.b16),
     'derivation': derivation,
     'table:C01': table_battery(B.b01),
